@@ -8,14 +8,6 @@ namespace Restic.Proofs.C10Exact
 open Restic.Model.Repo Restic.Model.Prune
 open Restic.Proofs.C09Select Restic.Proofs.C09Plan Restic.Proofs.C10Plan Restic.Proofs.C10Account
 
-/-- the pack stays: neither deleted, nor repacked, nor missing -/
-def keptB (pl : Plan) (p : ID) : Bool := !(pl.remove.contains p) && !(pl.repack.contains p) && !(pl.ignore.contains p)
-
-/-- blob handles listed by the index after a completed prune: the entries of the packs that stay,
-    plus one entry for every repacked blob -/
-def afterBlobs (pl : Plan) (idx : List PB) : List BlobH :=
-  (idx.filter fun x => keptB pl x.pack).map (·.e.blob) ++ pl.keep.getD []
-
 theorem keepFold_mem' (skip : Bool) (pl : Plan) (b : BlobH) : ∀ (l : List PB) (k : List BlobH),
     b ∈ l.foldl (keepStep skip pl) k ↔
       b ∈ k ∧ ∀ pb ∈ l, pb.e.blob = b → (pb.pack ∈ pl.remove ∨ pb.pack ∈ pl.repack ∨ (skip = true ∧ pb.pack ∈ pl.ignore)) := by
